@@ -48,6 +48,10 @@ def decide(R, check, prop, tier, kf, replay_dir):
     if not r.obligations:
         d.verdict = 'broken'; d.reason = 'no obligations generated'; return d
     failed = list(r.failed)
+    if check.reject_ok:
+        # the property allows rejection by assertion / exception: a reachable library assertion is a rejection, not a violation
+        d.rejections = len([ob for ob in failed if ob['class'] == 'lib_assert'])
+        failed = [ob for ob in failed if ob['class'] != 'lib_assert']
     if check.misuse:
         # expected: at least one library assertion reachable (it fires), and no execution returns
         fired = [ob for ob in failed if ob['class'] == 'lib_assert']
@@ -180,7 +184,7 @@ def write_evidence(prop, tier, seed, decisions, wall, broken=None):
         ok_here = 0
         for ob in r.obligations:
             obl += 1
-            if ob['status'] == 'SUCCESS': dis += 1; ok_here += 1
+            if ob['status'] == 'SUCCESS' or ((d.check.misuse or d.check.reject_ok) and ob['class'] == 'lib_assert'): dis += 1; ok_here += 1   # misuse checks: the obligation is that the assertion FIRES
             per_class[ob['class']] = per_class.get(ob['class'], 0) + 1
         per_mode[r.mode] = per_mode.get(r.mode, 0) + len(r.obligations)
         solver += sum(x.time for x in d.results)
